@@ -139,6 +139,19 @@ struct Emitter {
         return s;
     }
 
+    std::string constMacroName(SourceLocation L) {
+        // name of the object-like macro whose body spells this literal (not the macro it was an argument of)
+        int guard = 0;
+        while (L.isMacroID() && guard++ < 16) {
+            if (SM.isMacroArgExpansion(L)) {
+                L = SM.getImmediateSpellingLoc(L);
+                continue;
+            }
+            return Lexer::getImmediateMacroName(L, SM, Ctx.getLangOpts()).str();
+        }
+        return "";
+    }
+
     std::string macroName(SourceLocation L) {
         if (!L.isMacroID()) return "";
         // outermost macro
@@ -218,10 +231,13 @@ struct Emitter {
         }
     }
 
+    const Stmt *pendingTop = nullptr;
     std::string head(const Stmt *S, const char *k) {
         std::string j = "{\"k\":\"";
         j += k;
-        j += "\",\"id\":" + std::to_string(idOf(S));
+        int theId = pendingTop ? idOf(pendingTop) : idOf(S);
+        pendingTop = nullptr;
+        j += "\",\"id\":" + std::to_string(theId);
         if (auto *E = dyn_cast<Expr>(S)) j += ",\"t\":" + std::to_string(typeId(E->getType()));
         j += ",\"loc\":" + locJ(S->getBeginLoc());
         return j;
@@ -263,12 +279,28 @@ struct Emitter {
         return t.substr(0, 80).str();
     }
 
+    std::string treeWithId(const Stmt *S, const Stmt *top, const Stmt *idFrom) {
+        // emit S but give the emitted root the id of idFrom (a dropped wrapper that is a CFG element)
+        const Stmt *S2 = S;
+        if (auto *E0 = dyn_cast<Expr>(S)) S2 = strip(E0);
+        if (S2 != top && S != top && (elems.count(S2) || elems.count(S))) {
+            // the inner expression is an element of its own: keep a reference, and alias the wrapper id to it
+            const Stmt *R = elems.count(S2) ? S2 : S;
+            ids[idFrom] = idOf(R);
+            pendingTop = nullptr;
+            return tree(S, top);
+        }
+        pendingTop = idFrom;
+        return tree(S, top);
+    }
+
     // Expression / statement tree. `top` is the CFG element being printed; any other
     // sub-statement that is a CFG element of its own is printed as a reference.
     std::string tree(const Stmt *S0, const Stmt *top) {
         if (!S0) return "null";
         const Stmt *S = S0;
         if (auto *E0 = dyn_cast<Expr>(S0)) S = strip(E0);
+        if (S0 == top && S != S0) pendingTop = top;
         if (S != top && S0 != top && (elems.count(S) || elems.count(S0))) {
             const Stmt *R = elems.count(S) ? S : S0;
             std::string j = "{\"k\":\"ref\",\"id\":" + std::to_string(idOf(R));
@@ -281,9 +313,9 @@ struct Emitter {
             if (!isa<CastExpr>(E) || true) {
                 if (!isa<IntegerLiteral>(E) && !isa<CharacterLiteral>(E) && foldInt(E, V)) {
                     std::string j = head(S, "int") + ",\"v\":" + llvm::toString(V, 10);
-                    if (auto *DR = dyn_cast<DeclRefExpr>(E)) j += ",\"name\":" + jstr(DR->getDecl()->getNameAsString());
+                    if (auto *DR = dyn_cast<DeclRefExpr>(E->IgnoreParenCasts())) j += ",\"name\":" + jstr(DR->getDecl()->getNameAsString());
                     else {
-                        std::string m = macroName(E->getBeginLoc());
+                        std::string m = constMacroName(E->getBeginLoc());
                         if (!m.empty()) j += ",\"name\":" + jstr(m);
                         j += ",\"src\":" + jstr(srcText(E));
                     }
@@ -293,7 +325,7 @@ struct Emitter {
             if (auto *IL = dyn_cast<IntegerLiteral>(E)) {
                 llvm::APSInt v(IL->getValue(), E->getType()->isUnsignedIntegerOrEnumerationType());
                 std::string j = head(S, "int") + ",\"v\":" + llvm::toString(v, 10);
-                std::string m = macroName(E->getBeginLoc());
+                std::string m = constMacroName(E->getBeginLoc());
                 if (!m.empty()) j += ",\"name\":" + jstr(m);
                 return j + "}";
             }
@@ -356,7 +388,10 @@ struct Emitter {
                 return j + kids(a, top) + "}";
             }
             if (auto *C = dyn_cast<CastExpr>(E)) {
-                if (!keepCast(C)) return tree(C->getSubExpr(), top);
+                if (!keepCast(C)) {
+                    if (S == top || S0 == top || pendingTop) { const Stmt *pt = pendingTop ? pendingTop : top; std::string r = treeWithId(C->getSubExpr(), top, pt); return r; }
+                    return tree(C->getSubExpr(), top);
+                }
                 std::string j = head(S, C->getCastKind() == CK_ArrayToPointerDecay ? "decay" : "cast");
                 j += std::string(",\"ck\":") + jstr(C->getCastKindName()) + ",\"impl\":" + (isa<ImplicitCastExpr>(C) ? "true" : "false");
                 j += ",\"ft\":" + std::to_string(typeId(C->getSubExpr()->getType()));
@@ -568,6 +603,11 @@ struct Emitter {
                 else if (auto *BOp = dyn_cast<BinaryOperator>(T)) k = BOp->getOpcode() == BO_LAnd ? "&&" : BOp->getOpcode() == BO_LOr ? "||" : "other";
                 j += std::string(",\"term\":\"") + k + "\",\"term_loc\":" + locJ(T->getBeginLoc());
                 const Stmt *C = B->getTerminatorCondition(true);
+                if (B->succ_size() == 2 && !isa<SwitchStmt>(T)) {
+                    // the value that decides this branch is the last expression evaluated in the block
+                    // (for `if (a && b)` the block holding `b` branches on `b`, not on the whole conjunction)
+                    if (const Expr *LC = B->getLastCondition()) C = LC;
+                }
                 if (C) {
                     const Stmt *CS = C;
                     if (auto *CE = dyn_cast<Expr>(C)) CS = strip(CE);
